@@ -2934,6 +2934,556 @@ theorem read_invalid_array_index_iff (d : Device) (oid : Oid) (pid : Nat) (idx :
           · split <;> simp [hs, hbi]
 
 
+/-! ## error_matches as a total, ordered case split — writes -/
+
+/-- the refusals that are none of the six the property names: value-out-of-range
+    (a fixed-length array asked to change its length), duplicate-name
+    (WriteableObjectName), operational-problem (ill-shaped state, mutable
+    ObjectIdentifierProperty of another type) -/
+def otherCode (e : Refusal) : Bool :=
+  match e with
+  | .valueOutOfRange => true | .duplicateName => true | .opProblem => true
+  | _ => false
+
+/-- the probe `obj.ReadProperty(pid, idx) is None` at the head of
+    `do_WritePropertyRequest`, as conditions on the state -/
+def preLadder (o : Object) (s : Slot) (idx : Option Nat) : Option Refusal :=
+  match idx with
+  | some i =>
+    if condNotArray s then some .notAnArray
+    else if condBadIndex o s i then some .invalidArrayIndex
+    else if condAbsent s idx then some .unknownProperty
+    else none
+  | none => if condAbsent s idx then some .unknownProperty else none
+
+/-- the probe lets the request through -/
+def prePassed (o : Object) (s : Slot) (idx : Option Nat) : Prop :=
+  ∃ rv, propRead o s idx = .ok rv ∧ rv ≠ .none
+
+theorem preLadder_some (o : Object) (s : Slot) (idx : Option Nat) (e : Refusal)
+    (h : preLadder o s idx = some e) :
+    propRead o s idx = .error e ∨ (propRead o s idx = .ok .none ∧ e = .unknownProperty) := by
+  unfold preLadder at h
+  cases idx with
+  | none =>
+    simp only at h
+    split at h
+    · rename_i habs; simp at h; subst h
+      exact Or.inr ⟨(propRead_none_iff o s none).mpr habs, rfl⟩
+    · simp at h
+  | some i =>
+    simp only at h
+    split at h
+    · rename_i hna; simp at h; subst h
+      exact Or.inl ((propRead_error_iff o s (some i) _).mpr ⟨i, rfl, Or.inl ⟨rfl, hna⟩⟩)
+    · rename_i hna
+      split at h
+      · rename_i hbi; simp at h; subst h
+        exact Or.inl ((propRead_error_iff o s (some i) _).mpr
+          ⟨i, rfl, Or.inr (Or.inl ⟨rfl, by simpa using hna, hbi⟩)⟩)
+      · split at h
+        · rename_i habs; simp at h; subst h
+          exact Or.inr ⟨(propRead_none_iff o s (some i)).mpr habs, rfl⟩
+        · simp at h
+
+theorem preLadder_none (o : Object) (s : Slot) (idx : Option Nat) (h : preLadder o s idx = none) :
+    propRead o s idx = .error .opProblem ∨ prePassed o s idx := by
+  cases hp : propRead o s idx with
+  | error r =>
+    obtain ⟨i, hi, hcase⟩ := (propRead_error_iff o s idx r).mp hp
+    subst hi
+    unfold preLadder at h
+    simp only at h
+    rcases hcase with ⟨_, hna⟩ | ⟨_, hna, hbi⟩ | ⟨hr, _⟩
+    · simp [hna] at h
+    · simp [hna, hbi] at h
+    · subst hr; exact Or.inl rfl
+  | ok rv =>
+    right
+    refine ⟨rv, hp, ?_⟩
+    intro hn; subst hn
+    have habs := (propRead_none_iff o s idx).mp hp
+    unfold preLadder at h
+    cases idx with
+    | none => simp [habs] at h
+    | some i =>
+      obtain ⟨h1, h2⟩ := condAbsent_some o s i habs
+      simp [h1, h2, habs] at h
+
+/-- what a passed probe says about a property served by Property.ReadProperty -/
+theorem prePassed_std (o : Object) (s : Slot) (idx : Option Nat) (hc : stdLike s.d.custom = true)
+    (h : prePassed o s idx) :
+    s.v ≠ .absent ∧
+    ∀ i, idx = some i → s.d.dt.isArray = true ∧ ∃ its, s.v = .arr its ∧ i ≤ its.length := by
+  obtain ⟨rv, hr, hne⟩ := h
+  rw [propRead_eq_stdRead _ _ _ ((stdLike_iff _).mp hc)] at hr
+  constructor
+  · intro habs
+    unfold stdRead at hr
+    cases idx with
+    | none => simp [habs] at hr; exact hne hr.symm
+    | some i =>
+      simp only [habs] at hr
+      split at hr
+      · simp at hr
+      · simp at hr; exact hne hr.symm
+  · intro i hi
+    subst hi
+    unfold stdRead at hr
+    simp only at hr
+    split at hr
+    · simp at hr
+    · rename_i harr
+      have harr' : s.d.dt.isArray = true := by simpa using harr
+      refine ⟨harr', ?_⟩
+      split at hr
+      · simp at hr; exact absurd hr.symm hne
+      · rename_i its hv
+        refine ⟨its, hv, ?_⟩
+        unfold arrayGet at hr
+        split at hr
+        · simp at hr
+        · omega
+      · simp at hr
+
+
+/-- `Property.WriteProperty` as conditions: read-only → write-access-denied;
+    the value is not valid for the datatype → Reject(invalid-parameter-datatype);
+    otherwise the assignment (which can only fail with one of the `otherCode`s) -/
+def stdLadder (s : Slot) (v : WVal) (idx : Option Nat) : Option Refusal :=
+  if !s.d.mutable then some .writeAccessDenied
+  else
+    match ladder s.d.dt v idx with
+    | .error _ => some invalidDatatype
+    | .ok () => none
+
+theorem ladder_notAnArray (dt : DT) (v : WVal) (idx : Option Nat)
+    (h : ladder dt v idx = .error .notAnArray) : dt.isArray = false ∧ idx.isSome = true := by
+  unfold ladder at h
+  split at h
+  · split at h
+    · split at h <;> simp [invalidDatatype] at h
+    · simp [invalidDatatype] at h
+  · split at h
+    · split at h
+      · split at h <;> simp [invalidDatatype] at h
+      · simp [invalidDatatype] at h
+    · split at h
+      · split at h
+        · split at h <;> simp [invalidDatatype] at h
+        · simp [invalidDatatype] at h
+      · split at h
+        · split at h <;> simp [invalidDatatype] at h
+        · simp [invalidDatatype] at h
+    · split at h
+      · simp [DT.isArray]
+      · split at h
+        · split at h <;> simp [invalidDatatype] at h
+        · simp [invalidDatatype] at h
+
+theorem arraySet_other (its : List Item) (fixed : Option Nat) (dflt : Item) (i : Nat) (v : WVal)
+    (e : Refusal) (h : arraySet its fixed dflt i v = .error e) (hi : i ≤ its.length) :
+    otherCode e = true := by
+  unfold arraySet at h
+  have h1 : ¬ i > its.length := by omega
+  by_cases h2 : i = 0
+  · subst h2
+    simp only [Nat.not_lt_zero, ↓reduceIte] at h
+    split at h
+    · split at h
+      · simp at h; subst h; rfl
+      · split at h
+        · split at h
+          · simp at h
+          · simp at h; subst h; rfl
+        · simp at h
+    · simp at h; subst h; rfl
+  · simp only [h1, h2, ↓reduceIte] at h
+    split at h
+    · simp at h
+    · simp at h; subst h; rfl
+
+theorem assign_other (dt : DT) (old : PVal) (v : WVal) (idx : Option Nat) (e : Refusal)
+    (h : assign dt old v idx = .error e)
+    (hpre : ∀ i, idx = some i → dt.isArray = true ∧ ∃ its, old = .arr its ∧ i ≤ its.length) :
+    otherCode e = true := by
+  unfold assign at h
+  cases idx with
+  | some i =>
+    obtain ⟨harr, its, hold, hi⟩ := hpre i rfl
+    simp only at h
+    split at h
+    · subst hold
+      simp only at h
+      exact arraySet_other _ _ _ _ _ _ (map_err h) hi
+    · rename_i hdt
+      cases dt <;> simp_all [DT.isArray]
+  | none =>
+    simp only at h
+    split at h
+    · simp at h
+    · split at h
+      · split at h
+        · simp at h
+        · simp at h; subst h; rfl
+      · simp at h
+    · simp at h
+    · simp at h; subst h; rfl
+
+theorem stdWrite_stdLadder (s : Slot) (v : WVal) (idx : Option Nat)
+    (hpre : ∀ i, idx = some i → s.d.dt.isArray = true ∧ ∃ its, s.v = .arr its ∧ i ≤ its.length) :
+    (∀ e, stdLadder s v idx = some e → stdWrite s v idx = .error e) ∧
+    (stdLadder s v idx = none → ∀ e, stdWrite s v idx = .error e → otherCode e = true) := by
+  unfold stdLadder stdWrite
+  cases hm : s.d.mutable with
+  | false => simp
+  | true =>
+    simp only [Bool.not_true, Bool.false_eq_true, ↓reduceIte]
+    cases hl : ladder s.d.dt v idx with
+    | error r =>
+      simp only [reduceCtorEq, false_implies, and_true, Option.some.injEq]
+      intro e he; subst he
+      rcases ladder_error _ _ _ _ hl with h | h
+      · rw [h]
+      · subst h
+        obtain ⟨h1, h2⟩ := ladder_notAnArray _ _ _ hl
+        cases idx with
+        | none => simp at h2
+        | some i => have := (hpre i rfl).1; rw [h1] at this; simp at this
+    | ok u =>
+      simp only [reduceCtorEq, false_implies, implies_true, true_and, forall_const]
+      intro e he
+      exact assign_other _ _ _ _ _ he hpre
+
+
+/-- `prop.WriteProperty` of an object without (or outside) the Commandable
+    mix-in, by serving class -/
+def plainLadder (d : Device) (o : Object) (s : Slot) (v : WVal) (idx : Option Nat) : Option Refusal :=
+  match s.d.custom with
+  | .propList => some .writeAccessDenied
+  | .computed _ => some .writeAccessDenied
+  | .objId =>
+      if !s.d.mutable then some .writeAccessDenied
+      else
+        match v with
+        | .one _ it =>
+          (match itemNat it with
+           | some n => if n / 4194304 = o.ty then stdLadder s v idx else none
+           | none => none)
+        | _ => none
+  | .wrName =>
+      match v with
+      | .one _ it =>
+        if s.v = .one it then none
+        else if (deviceNames d).contains (.one it) then none
+        else stdLadder s v idx
+      | _ => stdLadder s v idx
+  | .std => stdLadder s v idx
+
+theorem map_some_error_iff {x : Except Refusal PVal} {e : Refusal} :
+    x.map some = .error e ↔ x = .error e := by
+  cases x <;> simp [Except.map]
+
+theorem propWrite_plainLadder (d : Device) (o : Object) (s : Slot) (v : WVal) (idx : Option Nat)
+    (hpre : stdLike s.d.custom = true →
+      ∀ i, idx = some i → s.d.dt.isArray = true ∧ ∃ its, s.v = .arr its ∧ i ≤ its.length) :
+    (∀ e, plainLadder d o s v idx = some e → propWrite d o s v idx = .error e) ∧
+    (plainLadder d o s v idx = none → ∀ e, propWrite d o s v idx = .error e → otherCode e = true) := by
+  unfold plainLadder propWrite
+  cases hc : s.d.custom with
+  | propList => simp
+  | computed val => simp
+  | std =>
+    have := stdWrite_stdLadder s v idx (hpre (by simp [hc, stdLike]))
+    simp only [map_some_error_iff]
+    exact this
+  | objId =>
+    have hstd := stdWrite_stdLadder s v idx (hpre (by simp [hc, stdLike]))
+    simp only
+    cases hm : s.d.mutable with
+    | false => simp
+    | true =>
+      simp only [Bool.not_true, Bool.false_eq_true, ↓reduceIte]
+      cases v with
+      | null => simp [otherCode]
+      | many e' its => simp [otherCode]
+      | one e' it =>
+        simp only
+        cases hn : itemNat it with
+        | none => simp [otherCode]
+        | some n =>
+          simp only
+          by_cases hty : n / 4194304 = o.ty
+          · simp only [hty, ↓reduceIte, map_some_error_iff]; exact hstd
+          · simp [hty, otherCode]
+  | wrName =>
+    have hstd := stdWrite_stdLadder s v idx (hpre (by simp [hc, stdLike]))
+    simp only
+    cases v with
+    | null => simp only [map_some_error_iff]; exact hstd
+    | many e' its => simp only [map_some_error_iff]; exact hstd
+    | one e' it =>
+      simp only
+      by_cases hsame : s.v = .one it
+      · simp [hsame]
+      · simp only [hsame, ↓reduceIte]
+        by_cases hdup : (deviceNames d).contains (.one it) = true
+        · simp only [hdup, ↓reduceIte]
+          constructor
+          · intro e he; simp at he
+          · intro _ e he; simp at he; subst he; rfl
+        · simp only [hdup, Bool.false_eq_true, ↓reduceIte, map_some_error_iff]; exact hstd
+
+theorem objWritePlain_snd (d : Device) (o : Object) (pid : Nat) (s : Slot) (v : WVal) (idx : Option Nat)
+    (hs : findSlot pid o.props = some s) :
+    (objWritePlain d o pid v idx).2 =
+      match propWrite d o s v idx with
+      | .error e => .error e
+      | .ok _ => .ok () := by
+  unfold objWritePlain
+  simp only [hs]
+  cases propWrite d o s v idx with
+  | error e => rfl
+  | ok res => cases res <;> rfl
+
+/-- a command into slot `p` of the priority array (presentValue with priority
+    `p`, or priorityArray[p] directly) -/
+def slotLadder (pvdt : DT) (v : WVal) (p : Int) : Option Refusal :=
+  if p = 0 then some .writeAccessDenied
+  else if p < 1 ∨ p > 16 then some .invalidArrayIndex
+  else
+    match v with
+    | .null => none
+    | .one e' it =>
+      (match pvdt with
+       | .scalar e => if elemValid e e' it then none else some invalidDatatype
+       | _ => some invalidDatatype)
+    | .many .. => some invalidDatatype
+
+theorem cmdSlotWrite_slotLadder (d : Device) (o : Object) (c : Cmd) (v : WVal) (p : Int) (pv : Slot)
+    (hok : cmdOK o c = true) (hpv : findSlot c.pv o.props = some pv) :
+    (cmdSlotWrite d o c v p).2 =
+      match slotLadder pv.d.dt v p with
+      | some e => .error e
+      | none => .ok () := by
+  obtain ⟨n1, n2, n3, pv', pa, rd, el, slots, rit, hpv', hpa, hrd, hcu, hmut, hcu2, hmut2, harr, hcu3, hdt3, hdt,
+    hpav, hrdv, hlen, hr, hs⟩ := cmdOK_elim o c hok
+  rw [hpv] at hpv'; simp only [Option.some.injEq] at hpv'; subst hpv'
+  unfold cmdSlotWrite slotLadder
+  by_cases hi0 : p = 0
+  · simp [hi0]
+  · by_cases hir : p < 1 ∨ p > 16
+    · simp [hi0, hir]
+    · simp only [hi0, hir, ↓reduceIte, hpa, hpv, hpav, hdt]
+      cases v with
+      | null =>
+        simp only
+        exact cmdSettle_ok d _ c
+          (cmdOK_setSlot o c hok pa slots pv el hpa hpav hpv hdt (p.toNat - 1) (.enc [nullTag]) (Or.inl rfl))
+      | many e' its => simp
+      | one e' it =>
+        simp only
+        by_cases hv : elemValid el e' it = true
+        · simp only [hv, ↓reduceIte]
+          exact cmdSettle_ok d _ c
+            (cmdOK_setSlot o c hok pa slots pv el hpa hpav hpv hdt (p.toNat - 1) it
+              (Or.inr (elemValid_self _ _ _ hv)))
+        · simp [hv]
+
+/-- the datatype of presentValue of a commandable object -/
+def pvDT (o : Object) (c : Cmd) : DT :=
+  match findSlot c.pv o.props with
+  | some pv => pv.d.dt
+  | none => .scalar .anyAtomic
+
+/-- `obj.WriteProperty`: Commandable intercepts presentValue and priorityArray -/
+def objLadder (d : Device) (o : Object) (pid : Nat) (s : Slot) (v : WVal) (idx : Option Nat)
+    (prio : Option Int) : Option Refusal :=
+  match o.cmd with
+  | none => plainLadder d o s v idx
+  | some c =>
+    if pid = c.pv then slotLadder (pvDT o c) v (effPrio prio)
+    else if pid = c.pa then
+      match idx with
+      | none => some .writeAccessDenied
+      | some i => slotLadder (pvDT o c) v (Int.ofNat i)
+    else plainLadder d o s v idx
+
+theorem objWrite_objLadder (d : Device) (o : Object) (pid : Nat) (s : Slot) (v : WVal)
+    (idx : Option Nat) (prio : Option Int)
+    (hs : findSlot pid o.props = some s)
+    (hcmd : ∀ c, o.cmd = some c → cmdOK o c = true)
+    (hpre : stdLike s.d.custom = true →
+      ∀ i, idx = some i → s.d.dt.isArray = true ∧ ∃ its, s.v = .arr its ∧ i ≤ its.length) :
+    (∀ e, objLadder d o pid s v idx prio = some e → (objWrite d o pid v idx prio).2 = .error e) ∧
+    (objLadder d o pid s v idx prio = none →
+      ∀ e, (objWrite d o pid v idx prio).2 = .error e → otherCode e = true) := by
+  have hplain : (∀ e, plainLadder d o s v idx = some e → (objWritePlain d o pid v idx).2 = .error e) ∧
+      (plainLadder d o s v idx = none →
+        ∀ e, (objWritePlain d o pid v idx).2 = .error e → otherCode e = true) := by
+    obtain ⟨h1, h2⟩ := propWrite_plainLadder d o s v idx hpre
+    rw [objWritePlain_snd d o pid s v idx hs]
+    constructor
+    · intro e he; rw [h1 e he]
+    · intro hn e he
+      cases hp : propWrite d o s v idx with
+      | error r => rw [hp] at he; simp at he; subst he; exact h2 hn _ hp
+      | ok res => rw [hp] at he; simp at he
+  unfold objLadder objWrite
+  cases hc : o.cmd with
+  | none => exact hplain
+  | some c =>
+    have hok := hcmd c hc
+    obtain ⟨n1, _, _, pv, _, _, _, _, _, hpv, _⟩ := cmdOK_elim o c hok
+    have hdt : pvDT o c = pv.d.dt := by simp [pvDT, hpv]
+    simp only
+    unfold objWriteCmd
+    by_cases h1 : pid = c.pv
+    · simp only [h1, ↓reduceIte, hdt]
+      rw [cmdSlotWrite_slotLadder d o c v _ pv hok hpv]
+      cases slotLadder pv.d.dt v (effPrio prio) <;> simp
+    · by_cases h2 : pid = c.pa
+      · simp only [h2, ↓reduceIte, hdt]
+        have h1' : ¬ c.pa = c.pv := n1
+        simp only [h1', ↓reduceIte]
+        cases idx with
+        | none => simp [cmdWholeWrite_pure d o c v hok]
+        | some i =>
+          simp only
+          rw [cmdSlotWrite_slotLadder d o c v _ pv hok hpv]
+          cases slotLadder pv.d.dt v (Int.ofNat i) <;> simp
+      · simp only [h1, h2, ↓reduceIte]
+        exact hplain
+
+
+/-- the decision ladder of `do_WritePropertyRequest` as a total, ordered case
+    split: object, property, the read probe (not-an-array, array index, no
+    value), the decoding of the value for the datatype, then the serving
+    class (read-only, validity of the value, Commandable's priority checks).
+    `some e` = refused with `e`; `none` = acknowledged, or refused with one of
+    the `otherCode`s by the assignment itself. -/
+def writeLadder (d : Device) (r : WriteReq) : Option Refusal :=
+  match findObj r.oid d.objs with
+  | none => some .unknownObject
+  | some o =>
+    match findSlot r.pid o.props with
+    | none => some .unknownProperty
+    | some s =>
+      match preLadder o s r.idx with
+      | some e => some e
+      | none =>
+        if condIllShaped s && r.idx.isSome then none
+        else
+          match castOut s.d.dt r.idx r.value with
+          | .error e => some e
+          | .ok v => objLadder d o r.pid s v r.idx r.prio
+
+theorem deviceOK_cmd (d : Device) (oid : Oid) (o : Object) (hdev : deviceOK d = true)
+    (ho : findObj oid d.objs = some o) : ∀ c, o.cmd = some c → cmdOK o c = true := by
+  intro c hc
+  have := (List.all_eq_true.mp hdev) _ (findObj_mem _ _ _ ho)
+  simpa [hc] using this
+
+/-- what `writeService` answers, in terms of the stages -/
+theorem writeService_snd (d : Device) (r : WriteReq) (o : Object) (s : Slot)
+    (ho : findObj r.oid d.objs = some o) (hs : findSlot r.pid o.props = some s) :
+    (writeService d r).2 =
+      match propRead o s r.idx with
+      | .error e => .error e
+      | .ok .none => .error .unknownProperty
+      | .ok _ =>
+        match castOut s.d.dt r.idx r.value with
+        | .error e => .error e
+        | .ok v => (objWrite d o r.pid v r.idx r.prio).2 := by
+  unfold writeService
+  simp only [ho, objRead, hs]
+  cases hp : propRead o s r.idx with
+  | error e => rfl
+  | ok rv =>
+    cases rv with
+    | none => rfl
+    | whole _ | len _ | elem _ =>
+      simp only
+      cases castOut s.d.dt r.idx r.value <;> rfl
+
+theorem writeLadder_spec (d : Device) (r : WriteReq) (hdev : deviceOK d = true) :
+    (∀ e, writeLadder d r = some e → (writeService d r).2 = .error e) ∧
+    (writeLadder d r = none → ∀ e, (writeService d r).2 = .error e → otherCode e = true) := by
+  unfold writeLadder
+  cases ho : findObj r.oid d.objs with
+  | none => simp [writeService, ho]
+  | some o =>
+    cases hs : findSlot r.pid o.props with
+    | none => simp [writeService, ho, objRead, hs]
+    | some s =>
+      simp only [hs]
+      rw [writeService_snd d r o s ho hs]
+      cases hpl : preLadder o s r.idx with
+      | some e0 =>
+        simp only [Option.some.injEq, reduceCtorEq, false_implies, and_true]
+        intro e he; subst he
+        rcases preLadder_some o s r.idx e0 hpl with h | ⟨h, he⟩
+        · simp [h]
+        · subst he; simp [h]
+      | none =>
+        simp only
+        by_cases hill : (condIllShaped s && r.idx.isSome) = true
+        · simp only [hill, ↓reduceIte, reduceCtorEq, false_implies, implies_true, true_and]
+          simp only [Bool.and_eq_true, Option.isSome_iff_exists] at hill
+          obtain ⟨hi1, i, hi⟩ := hill
+          have : propRead o s r.idx = .error .opProblem :=
+            (propRead_error_iff o s r.idx _).mpr ⟨i, hi, Or.inr (Or.inr ⟨rfl, hi1⟩)⟩
+          intro _ e he
+          simp [this] at he; subst he; rfl
+        · simp only [hill, Bool.false_eq_true, ↓reduceIte]
+          have hpass : prePassed o s r.idx := by
+            rcases preLadder_none o s r.idx hpl with h | h
+            · exfalso
+              obtain ⟨i, hi, hcase⟩ := (propRead_error_iff o s r.idx _).mp h
+              rcases hcase with ⟨he, _⟩ | ⟨he, _⟩ | ⟨_, hi1⟩
+              · simp at he
+              · simp at he
+              · apply hill; simp [hi1, hi]
+            · exact h
+          obtain ⟨rv, hrv, hne⟩ := hpass
+          have hread : ∀ (x : Except Refusal Unit),
+              (match propRead o s r.idx with
+                | .error e => .error e
+                | .ok .none => .error .unknownProperty
+                | .ok _ => x) = x := by
+            intro x; rw [hrv]; cases rv <;> simp_all
+          rw [hread]
+          cases hc : castOut s.d.dt r.idx r.value with
+          | error e0 => simp
+          | ok v =>
+            simp only
+            exact objWrite_objLadder d o r.pid s v r.idx r.prio hs (deviceOK_cmd d _ o hdev ho)
+              (fun hstd => (prePassed_std o s r.idx hstd ⟨rv, hrv, hne⟩).2)
+
+/-- **error_matches, writes, both directions**: for each of the six answers the
+    property names — unknown-object, unknown-property, property-is-not-an-array,
+    invalid-array-index, write-access-denied and the datatype Reject —
+    WriteProperty gives that answer **iff** the ladder decides it.  (`deviceOK`:
+    commandable objects consistent; an invariant, `deviceOK_preserved`.) -/
+theorem write_error_iff (d : Device) (r : WriteReq) (e : Refusal) (hdev : deviceOK d = true)
+    (h6 : otherCode e = false) :
+    (writeService d r).2 = .error e ↔ writeLadder d r = some e := by
+  obtain ⟨h1, h2⟩ := writeLadder_spec d r hdev
+  constructor
+  · intro h
+    cases hl : writeLadder d r with
+    | none => have := h2 hl e h; rw [this] at h6; simp at h6
+    | some e' => have := h1 e' hl; rw [this] at h; simp at h; subst h; rfl
+  · exact h1 e
+
+/-- … and an acknowledgement is only possible where the ladder decides nothing -/
+theorem write_ack_ladder (d : Device) (r : WriteReq) (hdev : deviceOK d = true)
+    (h : (writeService d r).2 = .ok ()) : writeLadder d r = none := by
+  cases hl : writeLadder d r with
+  | none => rfl
+  | some e => have := (writeLadder_spec d r hdev).1 e hl; rw [this] at h; simp at h
+
+
 /-! ## non-vacuity: concrete instances that meet the hypotheses
 
   A device built from the GENERATED table: an analogValue object of a vendor
